@@ -370,6 +370,36 @@ func Quiesce() {
 	park(s)
 }
 
+// ParkedSenders counts the threads that are parked in a channel SEND (a statement send or a select without
+// default whose only cases are sends) - at a quiescent point of a harness such a thread is stuck: nobody is left
+// to take what it wants to hand over.
+//
+//go:norace
+func ParkedSenders() (n int, who string) {
+	for i := 0; i < nslots; i++ {
+		s := &slots[i]
+		if i == cur || s.state != stParked {
+			continue
+		}
+		stuck := s.kind == OpChanSend
+		if s.kind == OpSelect && !s.hasDef && s.ncases > 0 {
+			stuck = true
+			for k := 0; k < s.ncases; k++ {
+				if s.cases[k].Dir != Send {
+					stuck = false
+				}
+			}
+		}
+		if stuck {
+			n++
+			if who == "" {
+				who = s.name
+			}
+		}
+	}
+	return
+}
+
 // Join parks until thread id has finished (virtual time may advance meanwhile).
 //
 //go:norace
